@@ -133,6 +133,36 @@ func scenarios() []scenario {
 		}
 		return []func() string{apply(&a), apply(&b), func() string { return verdict(rs, c) }}, func() string { return digest(s) + digest(c) }
 	}})
+	out = append(out, scenario{"ADM: 2 x ApplyDefaults inserting the same container defaults, each caller then edits its own instance", func() ([]func() string, func() string) {
+		s, rs := mustResolve(`{"type":"object","properties":{"b":{"default":{"c":2},"properties":{"c":{"default":3},"d":{"default":[1]}}},"l":{"default":[[1],{"k":[2]}]}}}`, nil)
+		var a, b any = decode(`{}`), decode(`{"x":1}`)
+		apply := func(p *any, id int) func() string {
+			return func() string {
+				if err := rs.ApplyDefaults(p); err != nil {
+					return "error"
+				}
+				// the inserted containers belong to this caller's instance alone
+				m := (*p).(map[string]any)
+				if bm, ok := m["b"].(map[string]any); ok {
+					bm["mine"] = id
+					if d, ok := bm["d"].([]any); ok && len(d) > 0 {
+						d[0] = id
+					}
+				}
+				if l, ok := m["l"].([]any); ok && len(l) == 2 {
+					if in, ok := l[0].([]any); ok && len(in) > 0 {
+						in[0] = id
+					}
+					if in, ok := l[1].(map[string]any); ok {
+						in["mine"] = id
+					}
+				}
+				j, _ := json.Marshal(*p)
+				return string(j)
+			}
+		}
+		return []func() string{apply(&a, 1), apply(&b, 2)}, func() string { return digest(s) }
+	}})
 	out = append(out, scenario{"ADS: 2 x ApplyDefaults into maps with struct elements (struct field cache, cold)", func() ([]func() string, func() string) {
 		s, rs := mustResolve(`{"properties":{"p":{"properties":{"a":{"default":1}}}}}`, nil)
 		m1 := map[string]defStruct{"p": {A: 1}}
